@@ -36,6 +36,7 @@ from vlib import harness as H
 from vlib import menus as M
 from vlib import fixtures as F
 from vlib import c20_run as R
+from vlib import c20_scan as S
 
 PID = "C20"
 LEVEL = "exploration"
@@ -469,8 +470,9 @@ def header_histories(v):
     # header variations around secret-bearing requests
     for label, req in secret_shapes():
         for hl, extra in (("ts-stale", {"ts": "stale"}), ("ts-future", {"ts": "future"}),
-                          ("async", {"async": True}), ("undo", {"cont": "UNDO"})):
-            steps.append({"label": "hdr/%s" % hl, "req": dict(copy.deepcopy(req), v=list(v), **extra)})
+                          ("async", {"async": True}), ("undo", {"cont": "UNDO"}),
+                          ("version-unsupported", {"v": [9, 9]}), ("count-mismatch", {"count": 5})):
+            steps.append({"label": "hdr/%s" % hl, "req": dict(dict(copy.deepcopy(req), v=list(v)), **extra)})
     return [history("header-%d.%d#%d" % (v[0], v[1], i // 40), steps[i:i + 40], v)
             for i in range(0, len(steps), 40)]
 
@@ -504,6 +506,10 @@ def grid_histories(tier):
             for k in range(N_SETUP):
                 out += chunked("obj-%s-%d.%d" % (TARGETS[k], v[0], v[1]), object_probes(k), v, size)
     out += internal_error_histories()
+    # control: with DEBUG switched on the session logs every frame in hex - records below INFO
+    # must be seen by the handler and left out of the verdict
+    for h in decode_grid(vmain)[:2] + oversize_grid(vmain)[:1]:
+        out.append(dict(copy.deepcopy(h), debug=True, seed=h["seed"] + "-debug", label="debugctl-" + h["label"]))
     return out
 
 
@@ -844,6 +850,8 @@ def _record(col, spec, res, extra_classes=()):
                buckets=res["buckets"])
     for k in res["kinds"]:
         col.bump("cases_with_canary_kind:" + k)
+    if res.get("below_info"):
+        col.bump("records_below_INFO_ignored", res["below_info"])
 
 
 def grid_worker(tier, shard, nshards):
@@ -875,6 +883,7 @@ def random_worker(n_server, n_client, seed):
 
 
 def run(ctx):
+    S.selfcheck()
     n = core.NCPU
     dicts = core.run_sharded("vlib.props.c20", "grid_worker", [(ctx.tier, i, n) for i in range(n)])
     ns, nc = ctx.n(320, 9000), ctx.n(96, 1500)
